@@ -21,8 +21,9 @@ use std::time::Duration;
 use vcore::{Cx, Res};
 
 /// Real-time constants of the code under test, in ONE place. They only size harness deadlines
-/// (which never decide pass/fail on their own) and the cost of a case. When hooks H1/H3 land
-/// (see HOOKS-WANTED.patch) set `DIVISOR` through them in `timing::init` and everything here shrinks.
+/// (which never decide pass/fail on their own) and the cost of a case. Hooks H1/H3 in /repo
+/// (`emit_batcher::verif::set_delay_divisor`, under `--cfg emit_rs_emit_verif`) divide every receiver
+/// delay (retry back-off AND idle poll) and the OTLP request timeout by one process-wide divisor.
 pub mod timing {
     use std::time::Duration;
 
@@ -34,14 +35,19 @@ pub mod timing {
     /// idle poll of the receiver grows up to this
     pub const IDLE_MAX_MS: u64 = 500;
 
-    /// Process-wide divisor applied by hooks H1/H3 (1 = hooks absent).
+    /// Moderate on purpose: with 20 the first back-off is 35 ms, the longest 500 ms, the whole retry
+    /// budget ~3.9 s, the request timeout 1.5 s and the idle poll <= 25 ms — collector-side latencies
+    /// (a few ms even for 1.4 MiB bodies) stay small against all of them.
+    pub const DIVISOR: u32 = 20;
+
     pub fn divisor() -> u64 {
-        1
+        emit_batcher::verif::delay_divisor().max(1) as u64
     }
 
-    /// Called once from `main`. With the hooks present this is where
-    /// `emit_batcher::verif_set_time_divisor(n)` / `emit_otlp::verif_set_time_divisor(n)` go.
-    pub fn init() {}
+    /// Called once from `main`, before any emitter exists (the divisor is process-wide).
+    pub fn init() {
+        emit_batcher::verif::set_delay_divisor(DIVISOR);
+    }
 
     /// total back-off before the `n`-th retry has been sent
     pub fn backoff_total_ms(n: u32) -> u64 {
@@ -54,10 +60,16 @@ pub mod timing {
         total / divisor()
     }
 
+    pub fn request_timeout_ms() -> u64 {
+        REQUEST_TIMEOUT_MS / divisor()
+    }
+
     /// A generous bound for "everything that can be delivered has been delivered" given the number of
-    /// failures and stalls scripted for one batch. Only ever used as a deadline.
+    /// failures and stalls scripted for one batch: 6 s (about 100x what a healthy loopback delivery of
+    /// the largest batch takes, and 12x the longest scaled back-off) on top of three times the time the
+    /// scripted faults legitimately cost. Only ever used as a deadline.
     pub fn settle(failures: u32, stalls: u32) -> Duration {
-        Duration::from_millis(20_000 + 3 * backoff_total_ms(failures) + stalls as u64 * (REQUEST_TIMEOUT_MS / divisor() + 2_000))
+        Duration::from_millis(6_000 + 3 * backoff_total_ms(failures) + 3 * stalls as u64 * (request_timeout_ms() + 200))
     }
 }
 
@@ -201,14 +213,24 @@ impl Scenario {
 // ---------------------------------------------------------------------------------------------
 // driving the real emitter
 
-const PLUG_BASE: u64 = 1_000;
+/// Every run of a scenario gets its own id space (`base`, a multiple of `ID_SPACE`): should a request of
+/// another case ever reach this case's collector (an emitter outliving its collector + port reuse; the
+/// collector's port quarantine is there to prevent it) it is recognised as foreign instead of being taken
+/// for a duplicate.
+const ID_SPACE: u64 = 100_000;
+static CASE_SEQ: std::sync::atomic::AtomicU64 = std::sync::atomic::AtomicU64::new(1);
 
-fn plug_id(s: Signal) -> u64 {
-    PLUG_BASE + s.index() as u64
+fn plug_id(base: u64, s: Signal) -> u64 {
+    base + 1_000 + s.index() as u64
 }
 
-fn event_id(s: Signal, i: usize) -> u64 {
-    (s.index() as u64 + 1) * 10_000 + i as u64
+fn event_id(base: u64, s: Signal, i: usize) -> u64 {
+    base + (s.index() as u64 + 1) * 10_000 + i as u64
+}
+
+/// id as shown in messages (position inside the case's id space)
+fn rel(id: u64) -> u64 {
+    id % ID_SPACE
 }
 
 fn build(c: &Collector, sc: &Scenario) -> emit_otlp::Otlp {
@@ -281,6 +303,8 @@ fn emit_to(otlp: &emit_otlp::Otlp, signal: Signal, case_id: u64, kib: usize) {
 pub struct Observed {
     /// the harness could not establish its own preconditions (plug never seen, ...): inconclusive
     pub harness_problem: Option<String>,
+    /// start of this run's id space
+    pub base: u64,
     /// ids emitted per signal (plug first)
     pub emitted: BTreeMap<Signal, Vec<u64>>,
     /// result of the short flush attempted while every plug was still unanswered
@@ -294,6 +318,24 @@ pub struct Observed {
     pub log_final: Vec<RequestLog>,
     /// whether the bounded wait saw every expected event acknowledged
     pub settled: bool,
+    /// emit's own count of failed batch attempts per signal (`otlp_<signal>_queue_batch_failed`),
+    /// sampled before the emitter is dropped: a request can fail on the client side (its timeout
+    /// expiring under load) without the collector having refused anything
+    pub client_failed: BTreeMap<Signal, usize>,
+}
+
+fn sample_client_failures(otlp: &emit_otlp::Otlp) -> BTreeMap<Signal, usize> {
+    use emit::metric::Source as _;
+    let out = std::cell::RefCell::new(BTreeMap::new());
+    otlp.metric_source().sample_metrics(emit::metric::sampler::from_fn(|m| {
+        let name = m.name().to_string();
+        for (sig, prefix) in [(Signal::Logs, "otlp_logs_"), (Signal::Traces, "otlp_traces_"), (Signal::Metrics, "otlp_metrics_")] {
+            if name.strip_prefix(prefix) == Some("queue_batch_failed") {
+                out.borrow_mut().insert(sig, m.value().by_ref().cast::<usize>().unwrap_or(usize::MAX));
+            }
+        }
+    }));
+    out.into_inner()
 }
 
 fn ids_of(r: &RequestLog) -> BTreeSet<u64> {
@@ -319,6 +361,7 @@ fn all_acked(log: &[RequestLog], want: &BTreeMap<Signal, Vec<u64>>, signals: &[S
 }
 
 pub fn run(sc: &Scenario) -> Observed {
+    let case_started = std::time::Instant::now();
     let started = Collector::try_start().and_then(|c| {
         if sc.wire == Wire::Grpc {
             c.ensure_grpc()?;
@@ -330,6 +373,7 @@ pub fn run(sc: &Scenario) -> Observed {
         Err(e) => {
             return Observed {
                 harness_problem: Some(e),
+                base: 0,
                 emitted: BTreeMap::new(),
                 early_flush: None,
                 flush: None,
@@ -337,6 +381,7 @@ pub fn run(sc: &Scenario) -> Observed {
                 log_at_flush: Vec::new(),
                 log_final: Vec::new(),
                 settled: false,
+                client_failed: BTreeMap::new(),
             }
         }
     };
@@ -354,8 +399,10 @@ pub fn run(sc: &Scenario) -> Observed {
         }
     }
     let otlp = build(&c, sc);
+    let base = CASE_SEQ.fetch_add(1, std::sync::atomic::Ordering::SeqCst) * ID_SPACE;
     let mut obs = Observed {
         harness_problem: None,
+        base,
         emitted: BTreeMap::new(),
         early_flush: None,
         flush: None,
@@ -363,17 +410,18 @@ pub fn run(sc: &Scenario) -> Observed {
         log_at_flush: Vec::new(),
         log_final: Vec::new(),
         settled: false,
+        client_failed: BTreeMap::new(),
     };
 
     // 1. plugs
     for s in sc.configured() {
-        emit_to(&otlp, s, plug_id(s), 1);
-        obs.emitted.entry(s).or_default().push(plug_id(s));
+        emit_to(&otlp, s, plug_id(base, s), 1);
+        obs.emitted.entry(s).or_default().push(plug_id(base, s));
     }
     let plugs_held = |log: &[RequestLog]| {
         healthy
             .iter()
-            .all(|s| log.iter().any(|r| r.signal == Some(*s) && r.phase == Phase::Held && ids_of(r).contains(&plug_id(*s))))
+            .all(|s| log.iter().any(|r| r.signal == Some(*s) && r.phase == Phase::Held))
     };
     if !c.wait_until(plugs_held, Duration::from_secs(30)) {
         obs.harness_problem = Some("the plug requests did not all arrive within 30 s".into());
@@ -394,8 +442,8 @@ pub fn run(sc: &Scenario) -> Observed {
         for s in sc.configured() {
             let st = sc.streams[s.index()].as_ref().unwrap();
             if let Some(kib) = st.sizes_kib.get(i) {
-                emit_to(&otlp, s, event_id(s, i), *kib as usize);
-                obs.emitted.entry(s).or_default().push(event_id(s, i));
+                emit_to(&otlp, s, event_id(base, s, i), *kib as usize);
+                obs.emitted.entry(s).or_default().push(event_id(base, s, i));
             }
         }
     }
@@ -414,14 +462,13 @@ pub fn run(sc: &Scenario) -> Observed {
     let settle = match sc.ending {
         Ending::Flush => timing::settle(sc.max_failures(), sc.max_stalls()),
         // after a drop nothing but the already scripted back-off stands between the queue and the collector
-        _ => Duration::from_millis(6_000 + 3 * timing::backoff_total_ms(sc.max_failures())),
+        _ => timing::settle(sc.max_failures(), 0),
     };
     match sc.ending {
         Ending::Flush => {
             for s in &healthy {
                 c.release(s.index() as u32);
             }
-            let started = std::time::Instant::now();
             if sc.outage.is_none() {
                 let ok = otlp.blocking_flush(settle);
                 obs.flush = Some(ok);
@@ -433,12 +480,17 @@ pub fn run(sc: &Scenario) -> Observed {
             } else {
                 obs.settled = c.wait_until(|log| all_acked(log, &obs.emitted, &healthy), settle);
             }
-            if sc.outage.is_some() && started.elapsed() < Duration::from_millis(timing::backoff_total_ms(6)) {
-                // the dead endpoint's batch is still far from exhausting its retry budget (10 retries,
-                // ~78 s of back-off): a flush cannot truthfully succeed now
+            if sc.outage.is_some() && case_started.elapsed() < Duration::from_millis(timing::backoff_total_ms(6)) {
+                // the dead endpoint's first batch (the plug) is still far from exhausting its retry
+                // budget (10 retries, ~78 s of back-off unscaled; the window used here ends before the
+                // 7th) and a second batch is queued behind it: a flush cannot truthfully succeed now
                 obs.outage_flush = Some(otlp.blocking_flush(Duration::from_millis(100)));
             }
+            obs.client_failed = sample_client_failures(&otlp);
             obs.log_final = c.requests();
+            // the collector goes first (see collector/NOTES.md: no TIME_WAIT left behind)
+            c.release_stalls();
+            c.shutdown();
             drop(otlp);
         }
         Ending::DropWhileQueued => {
@@ -447,7 +499,7 @@ pub fn run(sc: &Scenario) -> Observed {
             // connection being closed by the client. A healthy worker keeps the plug request open.
             let _ = c.wait_until(
                 |log| log.iter().any(|r| matches!(r.decision, Decision::Hold(_)) && r.phase == Phase::Done),
-                Duration::from_millis(2 * timing::IDLE_MAX_MS + 200),
+                Duration::from_millis(2 * timing::IDLE_MAX_MS / timing::divisor() + 300),
             );
             for s in &healthy {
                 c.release(s.index() as u32);
@@ -524,6 +576,14 @@ pub fn judge(sc: &Scenario, obs: &Observed, cx: &mut Cx) -> Result<Result<(), St
     }
     let healthy = sc.healthy();
     let log = &obs.log_final;
+    for r in log.iter().chain(obs.log_at_flush.iter()) {
+        if let Some(id) = ids_of(r).into_iter().find(|id| id / ID_SPACE != obs.base / ID_SPACE) {
+            return Ok(Err(format!(
+                "a request of another case (event {id}, this case's id space starts at {}) reached this case's collector: port reuse",
+                obs.base
+            )));
+        }
+    }
 
     // requests of each signal after its plug = the batch
     let mut multi = false;
@@ -646,7 +706,8 @@ pub fn judge(sc: &Scenario, obs: &Observed, cx: &mut Cx) -> Result<Result<(), St
             cx.fail(
                 sig,
                 format!(
-                    "{s:?} event {id} was accepted by emit but is in no acknowledged request{outage} ({}; {what}); requests of this signal: {}",
+                    "{s:?} event {} was accepted by emit but is in no acknowledged request{outage} ({}; {what}); requests of this signal: {}",
+                    rel(*id),
                     match obs.flush {
                         Some(true) => "blocking_flush returned true".to_string(),
                         Some(false) => "blocking_flush timed out and the bounded wait after it expired".to_string(),
@@ -668,7 +729,7 @@ pub fn judge(sc: &Scenario, obs: &Observed, cx: &mut Cx) -> Result<Result<(), St
                 if !acked_then.contains_key(id) && acked.contains_key(id) {
                     cx.fail(
                         "flush-reported-success-before-acknowledgement",
-                        format!("blocking_flush returned true but {s:?} event {id} was in no acknowledged request at that moment; requests of this signal: {}", describe(&obs.log_at_flush, *s)),
+                        format!("blocking_flush returned true but {s:?} event {} was in no acknowledged request at that moment; requests of this signal: {}", rel(*id), describe(&obs.log_at_flush, *s)),
                     )?;
                 }
             }
@@ -681,13 +742,19 @@ pub fn judge(sc: &Scenario, obs: &Observed, cx: &mut Cx) -> Result<Result<(), St
             .iter()
             .filter(|r| r.signal == Some(*s))
             .all(|r| r.outcome == Outcome::Acked && r.decision != Decision::AckThenClose);
-        if no_failure {
+        // ... and none failed on the client side either (by emit's own count; only known when the
+        // emitter was still alive at the end)
+        let client_failures = if after_drop { None } else { obs.client_failed.get(s).copied() };
+        if no_failure && client_failures.map(|n| n > 0).unwrap_or(false) {
+            cx.class("unscripted-client-side-failure");
+        }
+        if no_failure && client_failures == Some(0) {
             for id in obs.emitted.get(s).into_iter().flatten() {
                 let n = seen.get(id).copied().unwrap_or(0);
                 if n > 1 {
                     cx.fail(
                         "event-sent-twice-without-any-failure",
-                        format!("{s:?} event {id} appears {n} times although every request of the signal was acknowledged: {}", describe(log, *s)),
+                        format!("{s:?} event {} appears {n} times although every request of the signal was acknowledged: {}", rel(*id), describe(log, *s)),
                     )?;
                 }
             }
@@ -708,7 +775,7 @@ pub fn judge(sc: &Scenario, obs: &Observed, cx: &mut Cx) -> Result<Result<(), St
             // this point means they were delivered, but not by sending the failed request again)
             cx.fail(
                 "failed-request-resent-with-different-events",
-                format!("request {} ({}) failed carrying {ids:?}; requests of the signal: {}", r.seq, decision_label(&r.decision, r.transport), describe(log, sig)),
+                format!("request {} ({}) failed carrying {:?}; requests of the signal: {}", r.seq, decision_label(&r.decision, r.transport), ids.iter().map(|i| rel(*i)).collect::<Vec<_>>(), describe(log, sig)),
             )?;
         }
         if r.outcome == Outcome::Dropped {
@@ -730,7 +797,7 @@ pub fn judge(sc: &Scenario, obs: &Observed, cx: &mut Cx) -> Result<Result<(), St
 fn describe(log: &[RequestLog], s: Signal) -> String {
     let mut out = String::new();
     for r in log.iter().filter(|r| r.signal == Some(s)) {
-        let ids: Vec<u64> = ids_of(r).into_iter().collect();
+        let ids: Vec<u64> = ids_of(r).into_iter().map(rel).collect();
         out.push_str(&format!("[#{} conn{} {:?}->{:?} ids={:?}] ", r.seq, r.conn, r.decision, r.outcome, ids));
     }
     out
@@ -740,7 +807,7 @@ fn describe(log: &[RequestLog], s: Signal) -> String {
 pub fn check(sc: &Scenario, cx: &mut Cx) -> Result<Result<(), String>, vcore::Fail> {
     let obs = run(sc);
     if std::env::var_os("VERIF_DEBUG").is_some() {
-        eprintln!("early_flush={:?} flush={:?} settled={}", obs.early_flush, obs.flush, obs.settled);
+        eprintln!("early_flush={:?} flush={:?} settled={} client_failed={:?}", obs.early_flush, obs.flush, obs.settled, obs.client_failed);
         for r in &obs.log_final {
             eprintln!(
                 "  #{} conn{} {:?} {:?} gzip={} {:?} {:?}->{:?} wire={} payload={} ids={:?} err={:?}",
